@@ -369,6 +369,9 @@ class Summary:
         self.xunknown = 0
         self.wall_s = 0.0
         self.incomplete = None
+        self.viol_by_label = {}
+        self.artifacts = set()       # labels whose symbolic counterexample did not reproduce natively (model artefacts on this tree)
+        self.confirmed = set()
         self.bounds = spec.bounds[tier]
         self.missing_covers = []
 
@@ -426,10 +429,22 @@ def explore(spec, tier, seed=0, nproc=None, known_active=(), time_limit_s=None, 
             if time_limit_s and time.perf_counter() - t0 > time_limit_s:
                 summ.incomplete = "time limit of %ds reached with work outstanding" % time_limit_s
                 break
-            if summ.by_status.get("violation", 0) >= MAX_VIOLATED_PATHS and (queue or outstanding):
-                # enough counterexamples to report (each is replayed natively before it is printed)
-                summ.incomplete = "exploration stopped after %d violated paths" % summ.by_status["violation"]
-                break
+            if sum(c for lab, c in summ.viol_by_label.items() if lab not in summ.artifacts) >= MAX_VIOLATED_PATHS and (queue or outstanding):
+                # enough counterexamples to report -- provided they are real: one per label is replayed natively now; labels
+                # whose counterexample does not reproduce are artefacts of a model that does not fit this tree, they no longer
+                # count and the exploration goes on (real violations may still be found, also by the native path validation)
+                for v in summ.violations:
+                    lab = v["label"]
+                    if lab in summ.artifacts or lab in summ.confirmed:
+                        continue
+                    Sn, err = run_native(spec, tier, v["witness"])
+                    if err or Sn.failed:
+                        summ.confirmed.add(lab)
+                    else:
+                        summ.artifacts.add(lab)
+                if summ.confirmed:
+                    summ.incomplete = "exploration stopped after %d violated paths" % summ.by_status["violation"]
+                    break
     finally:
         if own_pool:
             pool.terminate()
@@ -456,7 +471,9 @@ def _merge_path(summ, r):
     summ.assumes.update(r["assumes"])
     summ.notes.update(r["notes"])
     for v in r["violations"]:
-        if len(summ.violations) < 50:
+        n = summ.viol_by_label.get(v["label"], 0)
+        summ.viol_by_label[v["label"]] = n + 1
+        if n < 2 and len(summ.violations) < 120:
             summ.violations.append(v)
     for k in r["knowns"]:
         summ.knowns.setdefault(k["label"], k)
@@ -466,7 +483,8 @@ def _merge_path(summ, r):
     if r["validated"] is True:
         summ.validated += 1
     elif r["validated"]:
-        if len(summ.validation_failures) < 10:
+        real = str(r["validated"]).startswith("native run failed checks")      # a real failing execution: never crowded out
+        if len([v for v in summ.validation_failures if str(v["why"]).startswith("native run failed checks") == real]) < 10:
             summ.validation_failures.append({"why": r["validated"], "sample": r["sample"]})
     if r["sample"] and len(summ.samples) < 6:
         summ.samples.append(r["sample"])
